@@ -3,14 +3,14 @@ claim('C12',
       'Decides structural clauses, not pattern semantics over values: exhaustive arm-by-arm agreement of type_of '
       'and is_type (v is type(v), v is anything, registered types accepted), is_type on every path of every '
       'variable-writing closure, switch/try arm-loop shape, and dominance of the splat length subtraction by its '
-      'comparison, the splat-adjusted threshold of defaults, the inverse-operation table of operator patterns, and per-element '
-      'evaluation of for-clause patterns in the iteration scope. A finite decision table extracted from rustc HIR plus CFG path queries over MIR.',
+      'comparison, the splat-adjusted threshold of defaults, the inverse-operation table of operator patterns, per-element '
+      'evaluation of for-clause patterns in the iteration scope, and commitment of switch to the first matching arm. A finite decision table extracted from rustc HIR plus CFG path queries over MIR.',
       'finite pattern tables from HIR + MIR must-pass-through (dominance) queries')
 claim('C07',
       'Decides the dispatch structure of the numeric tower, not numeric values: the exhaustive 4x4 result-level table of '
       'every binary_match!-generated operator impl and of div_floor/mod_floor (288 rows), that each level applies the impl\'s '
       'own operation, that // and %% come from one rounding family per level (flooring helpers), the operand-side, '
-      'length-guard and error arms of the vectorisation wrappers, and the zero-divisor guard of exact division; no unreduced Ratio::new_raw anywhere.',
+      'length-guard and error arms of the vectorisation wrappers, and the zero-divisor guard of exact division; no unreduced Ratio::new_raw anywhere; a rational becomes a float only through the correctly rounded whole-fraction conversion.',
       'finite decision tables from HIR patterns + MIR callee/provenance facts')
 claim('C06',
       'Decides representation independence of the integer dispatch layer, not arithmetic exactness: sign/signum tables by '
@@ -25,7 +25,7 @@ claim('C08',
       'comparison entry point (call-graph closure), f64->BigInt only on floor(f) or under an integrality test, exhaustive '
       'decision tables of the eight comparison operators, max/min bias and cmp_nint_f64, mirrored (Float,Int)/(Int,Float) arms, '
       'incomparable => error, stable sort, infinities separated before partial exact conversions, and no pointer-identity shortcut (Rc::ptr_eq) anywhere in '
-      'the comparison closure (with a positive control).',
+      'the comparison closure (with a positive control); the folding form `into max|min` uses the same test as max|min.',
       'forbidden-callee reachability over the resolved call graph + finite decision tables from MIR')
 claim('C09',
       'Decides the Eq/Hash coherence discipline of dictionary keys structurally, not operation histories: canonical hashing '
@@ -39,27 +39,30 @@ claim('C11',
       'next can end; observation methods take &self and iterate a clone_box() copy while Rc<dyn Stream> holders advance only through '
       'Rc::get_mut; every peek()-guarded loop makes progress; Range::len is sign-symmetric as a symbolic linear form with clamped '
       'numerators and Range::empty compares in the direction of the step; infinite streams declare it and len maps that to inf; overriding len/peek/index methods read the cursor field '
-      'next() advances on every result-producing path; Iterate yields the current element before stepping.',
+      'next() advances on every result-producing path; Iterate yields the current element before stepping; Range::len(None end) decided by '
+      'evaluating the MIR on that abstract input.',
       'per-impl decision table from MIR return origins + CFG progress queries + symbolic linear forms')
 claim('C10',
       'Decides structural clauses, not the clamp arithmetic: every positional payload access in the read/write/remove/slice functions '
       'takes its position from one of the shared normalisers (value-origin dataflow), accessor builtins are the documented index/slice '
       'expressions, all six sequence kinds are handled explicitly with byte-indexed strings, machine arithmetic on user indices is '
       'sign-guarded or reviewed, prefix iteration of streams requires non-negative bounds, bad indices raise, isize->usize casts in the normalisers are '
-      'sign-guarded, stream index overrides consult the cursor, absent slice-section bounds consume no argument.',
+      'sign-guarded, stream index overrides consult the cursor, absent slice-section bounds consume no argument, the clamping helper is used for slice bounds only.',
       'value-origin dataflow over MIR + accessor decision table + assert census with sign-guard dominance')
 claim('C03',
       'Decides the ingredients of operator-precedence grouping, not the grouping theorem: the exhaustive tie-break table of '
       'tighter_than_when_before enumerated from MIR discriminant paths with operand roles, the shunting shape of give/finish '
       '(pop/try_chain/run only on the reduce path, merge keeps the popped precedence, final push of the incoming operator, operand '
       'order), driver and sibling agreement, left-to-right single evaluation in the chain loop, and the complete who-chains-with-whom '
-      'table of all try_chain overrides, each returning its own operator type; assigning a precedence keeps the associativity.',
+      'table of all try_chain overrides, each returning its own operator type; assigning a precedence keeps the associativity; the tie-break table is obtained by evaluating the '
+      'function on all 16 abstract inputs; sections fill their leading blank first.',
       'discriminant-path enumeration of MIR + guard-polarity/dominance queries + literal tables from HIR patterns')
 claim('C04',
       'Decides agreement of the dispatch paths, not extensional equality per builtin: run vs run1/run2 of every impl Builtin '
       '(delegation or equal effect signature), the argument side of every partial-application wrapper in Func::run/run1/run2, '
       'constructor helpers, call-or-partially-apply, the operand order of then/./.>/<./apply/of, the read-old -> rhs -> drop -> '
-      'run2(old, rhs) -> assign order of op-assign, right sections for one-argument builtin calls, the 8-row splat/section decision table and in-order slot filling of sections.',
+      'run2(old, rhs) -> assign order of op-assign, right sections for one-argument builtin calls, the 8-row splat/section decision table, in-order slot filling of sections, and no independent run1/run2 override that run neither calls '
+      'nor mirrors (including whether the path can reject its argument).',
       'sibling-implementation cross-check + operand provenance over MIR')
 claim('C05',
       'Decides the structural rules of the documented semantics, not equivalence with a reference interpreter: the exhaustive scope '
@@ -67,21 +70,23 @@ claim('C05',
       'cycles, static parent), environment capture by lambdas, the exit algebra of every loop/fold/call/try site (Break/Continue '
       'counts decremented by one, Return absorbed only by calls, Throw only by try), declaration vs assignment layering over the '
       'Env parent chain, short-circuit polarity of and/or/coalesce, branch exclusivity of if, refusal of a redeclaration before any map write, and '
-      'the left-associative grammar layering of or/coalesce over and over chains.',
+      'the left-associative grammar layering of or/coalesce over and over chains, every use of an environment in Closure::run being the fresh '
+      'scope, the try body running in the enclosing scope, fold builtins translating their body\'s Break, and `into max|min` agreeing with max|min.',
       'exhaustive arm tables from HIR + CFG cycle/dominance/guard-polarity queries over MIR')
 claim('C17',
       'Decides structural agreement of the freeze traversal with the evaluator, not semantic equivalence over programs: scope copies '
       'exactly where evaluation scopes (per switch arm, catch-only, lambda, loops), binder placement and declared_only flags, identity '
       'rewrite of all Expr and Lvalue arms, every LocExpr/Lvalue child field produced by the freeze family, error exits confined to '
-      'warn == false, fully guarded constant folds, the FreezeEnv built by Expr::Freeze, union of binders across or/and patterns, and shape-preserving freeze wrappers.',
+      'warn == false, fully guarded constant folds, the FreezeEnv built by Expr::Freeze, union of binders across or/and patterns, shape-preserving freeze wrappers, the evaluator-side placement of the try scope, and the unary-minus '
+      'fold using the operation evaluation uses.',
       'sibling-traversal cross-check over HIR arms + field provenance over MIR')
 claim('C01',
       'Proof, relative to the soundness of safe Rust, of the aliasing clauses (a mutation is never visible through another holder of a '
       'payload; calling a function on a value leaves the variable unchanged): all side conditions under which Rc<payload> can only be '
       'mutated through make_mut/get_mut are discharged as obligations - no user unsafe (with positive control), interior mutability '
       'confined to reviewed environment/memo edges over the whole type graph reachable from Obj, uniquely owned variable cells, cell '
-      'writers confined to the evaluator, arguments by value - plus the read-before-write ordering of op-assign and swap, no user code under a mutable cell borrow, and take/restore pairing of '
-      'moved-out string payloads; thorough adds '
+      'writers confined to the evaluator, arguments by value - plus the read-before-write ordering of op-assign and swap, no user code under a mutable cell borrow, take/restore pairing of '
+      'moved-out string payloads, and nested writes descending into the stored slot itself (never a clone or the dict default); thorough adds '
       'compile-fail witnesses with compiling twins. Which slot a mutation addresses is not decided.',
       'type-graph reachability + who-may-call census + compile_fail witnesses (typestate enforced by rustc)', level='proof')
 claim('C02',
@@ -89,7 +94,7 @@ claim('C02',
       'really released - no-op drops only for homogeneous payloads) before the operator runs on the value read, elements are taken out '
       'before the every-function runs, every function of the in-place path goes through Rc::make_mut and contains no whole-payload '
       'copy or reallocation, consuming iterators drain unique handles, arguments travel by value, the drop before the operator is unconditional on '
-      'every path, and no write closure snapshots the cell it is about to write.',
+      'every path, no write closure snapshots the cell it is about to write, and the walkers never clone the element they fetched.',
       'dominance (must-pass-through) + forbidden-callee census over the in-place function table')
 claim('C14',
       'Decides an exact, reviewed inventory rather than panic-freedom for all inputs: every explicit panic site and every compiler-'
@@ -98,7 +103,8 @@ claim('C14',
       'divisors, dominating comparison with the right polarity, exit-count decrements) or listed with a one-line verdict; unlisted sites '
       'and changed counts are violations. Also: NRes values are never silently discarded outside the reviewed idioms, control-flow error '
       'variants are built only at reviewed sites, peek loops make progress, partial division-like operations are zero-guarded, and every '
-      'indexing operation (bounds checks, Index::index on Vec/slice/str/HashMap) is normaliser-derived or reviewed. Termination in general, stack depth and dependency panics '
+      'indexing operation (bounds checks, Index::index on Vec/slice/str/HashMap) is normaliser-derived or reviewed; std calls with index/range/radix preconditions and allocations sized by a user-supplied number are censused '
+      'too (the latter are listed known findings). Termination in general, stack depth and dependency panics '
       'are not decided.',
       'call-graph reachability census with reviewed triage tables + guard-polarity dominance')
 claim('C15',
@@ -107,7 +113,7 @@ claim('C15',
       'tokens read only through get(), progress of every lexer peek loop and (thorough) of every parser loop via a consuming-on-Ok least '
       'fixed point over the recursive-descent methods, and the literal tables (radix prefixes, NrDIGITS bounds, base-64 alphabet, escapes, '
       'suffixes) extracted from HIR patterns, no silent narrowing of literals (cast census), float literal tokens are one parse::<f64> of '
-      'their whole text.',
+      'their whole text, and no Unicode-numeric character class in the front end.',
       'census over the front-end call closure + CFG progress analysis + literal tables from HIR patterns')
 claim('C16',
       'Decides table agreement between paired encoders/decoders and the wiring of exact conversions, not the round-trip equalities '
@@ -116,11 +122,12 @@ claim('C16',
       'in both representations, mutual coverage of JSON kinds, no untriaged panic site in any codec body, and sign-before-split, checked '
       'exponent arithmetic and no leading-digit dropping in the exact decimal parser, the {:02x} template of hex_encode (decoded from the '
       'format_args encoding) against the decoder\'s two-digit chunks, a crate-wide lossy-cast census, and arbitrary-precision text->number '
-      'parsing (machine-typed parse sites reviewed; JSON integers through as_i64).',
+      'parsing (machine-typed parse sites reviewed; JSON integers through as_i64), and plain-Display rendering in repr.',
       'paired decision tables from HIR patterns/MIR constants + census + callee discipline')
 claim('C13',
       'The equations f(xs) == reference(xs) are NOT decided (runtime values). Decided are only the clauses of the statement that are '
       'finite tables or shapes: the exhaustive kind-preservation table of the filter/sort/unique/reverse/take/drop/uncons/unsnoc helpers '
       '(input kind -> constructed kind), stable sorting and first-occurrence uniqueness, the initial element of the combinatorial streams, '
-      'progress of the predicate loops over streams, and non-short-circuiting row construction in ziplongest.',
+      'progress of the predicate loops over streams, non-short-circuiting row construction in ziplongest, adjacency in group-by-relation, a window-free exit of window, predicates not '
+      're-run after their first failure, and f(accumulator, element) in fold/scan.',
       'finite kind tables from HIR match arms + guard-polarity query')
